@@ -162,6 +162,11 @@ impl Builder {
         let f = Arc::new(f);
 
         let start = Instant::now();
+        #[cfg(feature = "verif")]
+        let start = {
+            let _ = start;
+            crate::verif::Clock::start()
+        };
         loop {
             if i % self.checkpoint_interval == 0 {
                 info!(parent: None, "");
@@ -202,6 +207,9 @@ impl Builder {
             });
 
             execution.check_for_leaks();
+
+            #[cfg(feature = "verif")]
+            crate::verif::iteration_done(&execution.path);
 
             i += 1;
 
